@@ -3,6 +3,7 @@ package main
 import (
 	"encoding/json"
 	"fmt"
+	"strings"
 	"sync"
 	"time"
 
@@ -115,7 +116,7 @@ func prisonRun() {
 			prod := fmt.Sprintf("c%d", c.ID)
 			t0 := time.Now().Add(30*time.Millisecond + time.Duration(i%50)*time.Millisecond)
 			for _, a := range c.Arr {
-				req, err := mkReq("GET", "origin", "a.example.com", "/x", "", [][2]string{{"X-Key", fmt.Sprintf("k%d", a.K)}})
+				req, err := mkReq("GET", "origin", "a.example.com", "/x", "", [][2]string{{"X-Key", strings.Repeat("k", a.K)}, {"X-Key-Other", "k"}})
 				if err != nil {
 					panic("harness: " + err.Error())
 				}
